@@ -21,7 +21,8 @@ from comb_spec_searcher import (
     StrategyPack,
     VerificationStrategy,
 )
-from comb_spec_searcher.strategies.strategy import SymmetryStrategy
+from comb_spec_searcher.strategies.constructor import Constructor
+from comb_spec_searcher.strategies.strategy import Strategy, SymmetryStrategy
 
 
 RNG = _random  # the random source of the fixture's own samplers (replaced by an enumerator in C08)
@@ -225,6 +226,114 @@ class Expand2(Simple, DisjointUnionStrategy[WC, W]):
         else:
             idx = 1 + k + c.alphabet.index(w[n]) * k + c.alphabet.index(w[n + 1])
         return tuple(w if i == idx else None for i in range(len(children)))
+
+
+def foldable(c):
+    return (not c.just_prefix and c.prefix == "" and c.alphabet == ("a", "b") and not c.stats and not c.is_empty()
+            and set(c.patterns) == {swap_word(p) for p in c.patterns})
+
+
+class WeightedUnion(Constructor):
+    """parent = m_0 copies of child 0 + m_1 copies of child 1 + ... (same size): a constructor of the fixture's own, whose
+    rules have a backward map with several preimages."""
+
+    def __init__(self, multiplicities):
+        self.multiplicities = tuple(multiplicities)
+
+    def get_equation(self, lhs_func, rhs_funcs):
+        import sympy
+
+        return sympy.Eq(lhs_func, sum(m * f for m, f in zip(self.multiplicities, rhs_funcs)))
+
+    def reliance_profile(self, n, **parameters):
+        return tuple({"n": (n,)} for _ in self.multiplicities)
+
+    def get_terms(self, parent_terms, subterms, n):
+        from collections import Counter
+
+        terms = Counter()
+        for mult, child_terms in zip(self.multiplicities, subterms):
+            for param, value in child_terms(n).items():
+                terms[param] += mult * value
+        return terms
+
+    def get_sub_objects(self, subobjs, n):
+        for idx, subobj in enumerate(subobjs):
+            for param, objs in subobj(n).items():
+                yield param, tuple(objs if i == idx else [None] for i in range(len(subobjs)))
+
+    def random_sample_sub_objects(self, parent_count, subsamplers, subrecs, n, **parameters):
+        choice = RNG.randint(1, parent_count)
+        total = 0
+        for idx, (mult, rec, subsampler) in enumerate(zip(self.multiplicities, subrecs, subsamplers)):
+            total += mult * rec(n=n, **parameters)
+            if choice <= total:
+                obj = subsampler(n=n, **parameters)
+                return tuple(obj if i == idx else None for i in range(len(subrecs)))
+        raise RuntimeError("Function did not return")
+
+    def equiv(self, other, data=None):
+        return isinstance(other, WeightedUnion) and self.multiplicities == other.multiplicities, None
+
+    def __str__(self):
+        return "weighted union %s" % (self.multiplicities,)
+
+
+class FoldSwap(Simple, Strategy[WC, W]):
+    """For a class with empty prefix and a pattern set closed under the letter swap: the empty word, or a word starting with
+    'a', or the letter swap of such a word:  C('') = {''} + 2 x C('a').  The backward map has two preimages."""
+
+    def __init__(self):
+        super().__init__(ignore_parent=True, inferrable=False, possibly_empty=False, workable=True)
+
+    def can_be_equivalent(self):
+        return False
+
+    def is_two_way(self, comb_class):
+        return False
+
+    def is_reversible(self, comb_class):
+        return False
+
+    def shifts(self, comb_class, children=None):
+        return (0, 0)
+
+    def decomposition_function(self, c):
+        if foldable(c):
+            return (c.with_(just_prefix=True), c.with_(prefix="a"))
+        return None
+
+    def constructor(self, comb_class, children=None):
+        return WeightedUnion((1, 2))
+
+    def reverse_constructor(self, idx, comb_class, children=None):
+        raise NotImplementedError
+
+    def formal_step(self):
+        return "the empty word, or a word starting with a, or its letter swap"
+
+    def backward_map(self, c, objs, children=None):
+        if objs[0] is not None:
+            yield W(objs[0])
+        else:
+            yield W(objs[1])
+            yield W(swap_word(objs[1]))
+
+    def forward_map(self, c, obj, children=None):
+        if len(obj) == 0:
+            return (obj, None)
+        return (None, obj if obj[0] == "a" else W(swap_word(obj)))
+
+    def __repr__(self):
+        return "FoldSwap()"
+
+
+class ExpandUnlessFoldable(Expand):
+    def decomposition_function(self, c):
+        return None if foldable(c) else Expand.decomposition_function(self, c)
+
+    def formal_step(self):
+        return "expand by next letter (unless the class can be folded)"
 
 
 class ExpandMinimal(Expand):
@@ -1250,7 +1359,7 @@ def basic_pack(**kw):
 def make_pack(sym=False, inf=False, merge=False, iterative=False, factory=False, parent_factory=False,
               prefix_verified=None, prefix_verified_rev=None, empty_prefix_verified=False, two_sets=False, no_initial=False, name=None, expand=True,
               split=False, oneway=False, lazy=False, trim=False, rename=False, mono=False, fac2=False, cycle=False,
-              redundant_parent=False, brute=None, trimonly=False, hidden=False, trimrename=False, pfactory2=False, noinf=False, redpar=False, prefix_verified_nested=None, expand2=False, lookahead=False, ow2=None, sym_marked=False, inf_marked=False):
+              redundant_parent=False, brute=None, trimonly=False, hidden=False, trimrename=False, pfactory2=False, noinf=False, redpar=False, prefix_verified_nested=None, expand2=False, lookahead=False, ow2=None, sym_marked=False, inf_marked=False, fold=False):
     inferral = ([MinimizeMarked()] if inf_marked else [MinimizePatterns()] if inf else []) + ([MergeStats()] if merge else []) + ([RenameStats()] if rename else [])
     exp = [ExpandFactory()] if factory else [Expand()]
     if parent_factory:
@@ -1277,6 +1386,8 @@ def make_pack(sym=False, inf=False, merge=False, iterative=False, factory=False,
         exp = [RedundantParentExpandFactory(), ExpandMinimal()]
     if lookahead:
         exp = [LookaheadFactory()]
+    if fold:
+        exp = [FoldSwap(), ExpandUnlessFoldable()]
     expansion = [exp]
     if two_sets:
         expansion = [[RemoveFront()], exp] if no_initial else [exp, [ExpandFactory()]]
